@@ -20,7 +20,7 @@ from .. import core, parsers, rig, worlds
 ID = "C12"
 
 BASE = {"f1.txt": b"one\n", "m2.txt": b"two\n", "d": {"inner.txt": b"i\n"}, "h.html": worlds.HTML}
-KINDS = ["dangling", "fifo", "socket", "vanished", "eacces", "dotdot-name", "dotdir", "loop"]
+KINDS = ["dangling", "fifo", "socket", "vanished", "eacces", "dotdot-name", "dotdir", "loop", "noread-html", "noread-mbox"]
 # faults at the operating-system seam: the k-th and every later stat() of the entry fails (it was there when the
 # directory was read and for the first k-1 looks); a sub-directory that may be read but not searched
 OS_KINDS = ["stat%d-%s" % (k, e) for k in (1, 2, 3, 4) for e in ("enoent", "eacces")] + ["unsearchable"]
@@ -55,6 +55,10 @@ def fault_name(kind, pos):
     stem = POSITIONS[pos] + "-" + kind
     if kind == "dotdot-name":
         return POSITIONS[pos] + "a..b.txt"
+    if kind == "noread-html":
+        return POSITIONS[pos] + "-noread.html"
+    if kind == "noread-mbox":
+        return POSITIONS[pos] + "-noread.mbox"
     if kind == "dotdot-pyg":
         return POSITIONS[pos] + "a..b.pyg"
     if kind == "broken-pyg":
@@ -190,6 +194,11 @@ def _plant(root, d, kind, pos):
             rig.write_file(p, b"Name=unreadable link file\nType=1\nPath=/x\nHost=h\nPort=70\n")
             _eopen.add(sel)
             return name
+    if kind in ("noread-html", "noread-mbox"):
+        # a file that is there (stat works) but may not be opened: handlers that look inside get EACCES
+        rig.write_file(p, worlds.HTML if kind == "noread-html" else worlds.MBOX)
+        _eopen.add(sel)
+        return name
     if kind == "dangling":
         os.symlink("no-such-target", p)
     elif kind == "loop":
@@ -422,7 +431,70 @@ def _shard(shard, seed, tier):
     return part
 
 
+def _shard_real(shard, seed, tier):
+    """A real deployment that has dropped to `nobody`, with entries that only an unprivileged process cannot
+    serve: a directory it may not search, one it may search but not read, a file it may not read, a dangling
+    link, a FIFO.  The listing of the parent still succeeds and shows everything else."""
+    from .. import deploy
+
+    part = core.Partial()
+    for stype in shard:
+        spec = {"t": {"f1.txt": b"one\n", "m2.txt": b"two\n", "d": {"inner.txt": b"i\n"}, "h.html": worlds.HTML,
+                      "locked": {"inner.txt": b"x\n", "gophermap": b"never readable\n"}, "listonly": {"inner.txt": b"y\n"}, "noread.txt": b"secret\n", "znoread.html": worlds.HTML,
+                      "noread.mbox": worlds.MBOX, "gmdir": {"gophermap": b"1Up\t..\n", "x.txt": b"x\n"}, "mdlike": {"cur": {}, "new": {}, "tmp": {}}}}
+        srv = None
+
+        def lock(root):
+            os.chmod(os.path.join(root, "t", "locked"), 0o700)
+            os.chmod(os.path.join(root, "t", "listonly"), 0o744)
+            os.chmod(os.path.join(root, "t", "noread.txt"), 0o600)
+            os.chmod(os.path.join(root, "t", "znoread.html"), 0o600)
+            os.chmod(os.path.join(root, "t", "noread.mbox"), 0o600)
+            os.chmod(os.path.join(root, "t", "gmdir", "gophermap"), 0o600)
+            os.chmod(os.path.join(root, "t", "mdlike", "cur"), 0o700)
+            os.symlink("nowhere", os.path.join(root, "t", "dangling"))
+            os.mkfifo(os.path.join(root, "t", "pipe"))
+
+        # the tree must be in its final state before the server starts: build, lock, then launch
+        import types
+
+        orig_build = rig.build_tree
+
+        def build_and_lock(root, sp, *a, **k):
+            orig_build(root, sp, *a, **k)
+
+        srv = deploy.Server.__new__(deploy.Server)
+        try:
+            deploy.Server.__init__(srv, spec, {"drop": True, "servertype": stype, "preexec": None}, handlers="default", tag="c12r")
+            bad = []
+            if not srv.started:
+                bad.append(("no-start", "deployment did not come up: %r" % srv.log()[-300:]))
+            else:
+                lock(srv.root)
+                for proto in ("gopher", "gopherp_dir", "http", "spartan"):
+                    data, tls = rig.request(proto, "/t")
+                    got, err = srv.fetch(data, tls)
+                    missing = [n for n in (b"f1", b"m2", b"/t/d", b"h.html") if n not in got]
+                    if err or missing or (proto == "gopher" and got.startswith(b"3")):
+                        bad.append(("listing-lost", "server running as nobody, directory with entries it may not search/read: the %s listing of /t is %r %s (missing %r); log: %r" % (
+                            proto, got[:160], err or "", missing, srv.log()[-300:])))
+                if srv.ids()[0] != (deploy.NOBODY_UID,) * 3:
+                    raise core.HarnessError("the deployment did not drop its ids: %r" % (srv.ids(),))
+        finally:
+            srv.stop()
+        part.evaluations += 4
+        part.transitions += 4
+        part.state("real", stype)
+        part.outcome("real", stype, tuple(b[0] for b in bad))
+        for cls, det in bad:
+            part.violation("real|%s|%s" % (stype, cls), det, {"kind": "real", "stype": stype})
+    return part
+
+
 def replay(case):
+    if case["kind"] == "real":
+        p = _shard_real([case["stype"]], 0, "quick")
+        return (p.violations[0][0].rsplit("|", 1)[1], p.violations[0][1]) if p.violations else None
     if case["kind"] == "zip":
         bad = _run_zip(case["i"])
     else:
@@ -478,6 +550,7 @@ def run(ck):
         import random
 
         random.Random(ck.seed).shuffle(cases)
+    ck.pmap(_shard_real, [["ForkingTCPServer"], ["ThreadingTCPServer"]])
     pr = ck.pmap(_shard, core.chunks(cases, core.NPROC * 2))
     if pr.extra.get("capped"):
         ck.caps.append("%d shard(s) aborted early after hanging requests" % len(pr.extra["capped"]))
